@@ -32,10 +32,13 @@ type histMonitor struct {
 	ever      map[string]string // kind/repo/digest -> bytes once retrievable
 	neverLose bool              // Immutable wrapper: nothing ever retrievable may disappear
 	closure   bool              // immutable-tags: closure of every tag stays retrievable
+	// excused: repo/digest of manifests that another client removed from the underlying registry directly
+	// (not through the wrapper): their bytes may be gone, but no tag may move because of it
+	excused map[string]bool
 }
 
 func newHistMonitor(neverLose, closure bool) *histMonitor {
-	return &histMonitor{tagFirst: map[string]string{}, ever: map[string]string{}, neverLose: neverLose, closure: closure}
+	return &histMonitor{tagFirst: map[string]string{}, ever: map[string]string{}, neverLose: neverLose, closure: closure, excused: map[string]bool{}}
 }
 
 func (m *histMonitor) key() string {
@@ -45,6 +48,9 @@ func (m *histMonitor) key() string {
 	}
 	for k := range m.ever {
 		ks = append(ks, k[:len(k)-50])
+	}
+	for k := range m.excused {
+		ks = append(ks, "excused:"+k[:len(k)-50])
 	}
 	sort.Strings(ks)
 	return strings.Join(ks, ";")
@@ -69,6 +75,10 @@ func (m *histMonitor) step(s *regSys, op Op, check bool) (tainted bool) {
 				first, seen := m.tagFirst[k]
 				if !o.OK {
 					if seen {
+						fd, _, _ := strings.Cut(first, "|")
+						if qk == "GetTag" && m.excused[repo+"/"+fd] {
+							continue // the bytes were removed behind the wrapper's back; the tag itself must still resolve
+						}
 						viol("tag-no-longer-resolves/"+qk, "tag "+k+" resolves to "+first[:19]+" forever", fmt.Sprintf("%s failed: [%s] %s", qk, o.Code, o.Err))
 					}
 					continue
@@ -137,6 +147,9 @@ func (m *histMonitor) step(s *regSys, op Op, check bool) (tainted bool) {
 }
 
 func (m *histMonitor) everCheck(s *regSys, repo, qk, dig, what string, viol func(fp, exp, obs string)) {
+	if m.excused[repo+"/"+dig] {
+		return
+	}
 	o := runQuery(s.ctx, s.reg, Query{K: qk, Repo: repo, Dig: dig, What: what})
 	k := qk + "/" + repo + "/" + dig
 	was, seen := m.ever[k]
@@ -166,7 +179,16 @@ func newImmutableWrapperSys(r *vcore.Run, u *universe, cfg alphabetConfig) *regS
 		reg: ocifilter.Immutable(backend), raw: backend, noOracle: true,
 		model: NewModel(false), ctx: context.Background()}
 	s.extraKey = mon.key
+	// another client of the underlying registry removes a manifest directly (the wrapper cannot prevent
+	// that): whatever it leaves dangling, no tag observed through the wrapper may move
+	for _, mi := range []int{0, 1} {
+		s.static = append(s.static, Op{K: "BackdoorDeleteManifest", Repo: u.Repos[0], M: mi})
+	}
+	s.backdoor = backend
 	s.onStep = func(s *regSys, op Op, out Outcome, check bool) bool {
+		if op.K == "BackdoorDeleteManifest" && out.OK {
+			mon.excused[op.Repo+"/"+string(sha256Digest(s.u.Manifests[op.M].Data))] = true
+		}
 		t := mon.step(s, op, check)
 		if check && out.OK && (op.K == "DeleteBlob" || op.K == "DeleteManifest" || op.K == "DeleteTag") {
 			s.r.Violate(s.sub, "C14/Immutable-wrapper/delete-succeeded/"+op.K, s.caseOf(nil), "nothing is ever deleted through the immutable wrapper", op.String()+" succeeded")
